@@ -196,7 +196,8 @@ def run(ctx, ck) -> None:
             w = witness(ob.expr)
             if w is not None:
                 ck.bad('Z10', ob.node, f'kernel {fn.name}: {ob.what} fails, e.g. for n={w["n"]}, K={w["K"]}, fft_size={w["fft_size"]} (nblock={w["nblock"]}) the margin is {w["value"]}: '
-                       'a slice goes out of bounds (dynamic slices are clamped silently, static ones truncated) and the method returns wrong values', instance=f'{m} bound')
+                       + ('the tail of the result is never computed (it keeps the zeros the buffer was created with)' if 'were all computed' in ob.what else
+                          'a slice goes out of bounds (dynamic slices are clamped silently, static ones truncated) and the method returns wrong values'), instance=f'{m} bound')
             else:
                 ck.incomplete('Z10', ob.node, f'kernel {fn.name}: cannot prove {ob.what} (margin {ob.expr})', instance=f'{m} bound')
         if not any(o.status != 'ok' and o.rule.endswith('Z10') and f'{m} ' in o.construct for o in ck.obs):
